@@ -1072,6 +1072,11 @@ def chained_map(rng, used, prefer=()):
         va = rng.choice([2 * b, b + 1, b ** 2, sympy.sin(b), b / 3 - 1, a + b, a * b])
         vb = rng.choice([1.0, 2, sympy.Rational(1, 3), sympy.Symbol("u"), sympy.Symbol("u") + 1, 0.5])
         items = [(a, va), (b, vb)]
+        if rng.random() < 0.5:
+            # a BIG map (an optimiser's whole parameter vector): 70 - 130 further entries for symbols the object does
+            # not use - "extra symbols in the map are ignored", however many there are
+            items += [(sympy.Symbol(f"unused_{j}"), round(rng.uniform(-3, 3), 3)) for j in range(rng.choice([70, 100, 130]))]
+            style = "feed-big"
         rng.shuffle(items)
         return dict(items), style
     if style == "swap":
@@ -1085,6 +1090,9 @@ def chained_map(rng, used, prefer=()):
     else:
         m = {ks[0]: ks[1] * 2 + 1, ks[1]: ks[0] - sympy.Rational(1, 2)}
     items = list(m.items())
+    if rng.random() < 0.35:
+        items += [(sympy.Symbol(f"unused_{j}"), round(rng.uniform(-3, 3), 3)) for j in range(rng.choice([70, 100, 130]))]
+        style += "-big"
     rng.shuffle(items)
     return dict(items), style
 
